@@ -58,6 +58,18 @@ def run_virtual(
             tr.move_to(start + timedelta(microseconds=round(clock.time() * 1e6)))
 
         clock.advance = adv
+        # async_solipsism takes a select timeout of a day or more for "sleep forever" (asyncio caps every timeout at
+        # exactly one day); a timer that is due in more than a day is waited for in steps of just under a day
+        sel = loop._selector  # pylint: disable=protected-access
+        orig_select = sel.select
+        day = asyncio.base_events.MAXIMUM_SELECT_TIMEOUT
+
+        def select(timeout: float | None = None) -> Any:
+            if timeout is not None and timeout >= day:
+                timeout = day - 1.0
+            return orig_select(timeout)
+
+        sel.select = select  # type: ignore[method-assign]
         # livelock detector: count loop iterations at one virtual instant
         spin = {"t": None, "n": 0}
         orig_run_once = loop._run_once  # pylint: disable=protected-access
